@@ -148,4 +148,89 @@ inductive SeqForm where
 def geoboxUnionForm (_form : SeqForm) (gs : List GeoBox) : Res GeoBox := geoboxUnionConservative gs
 def geoboxIntersectionForm (_form : SeqForm) (gs : List GeoBox) : Res GeoBox := geoboxIntersectionConservative gs
 
+/-! ## growth round 3 -/
+
+/-! ### empty geometries in `project` / `enclosing`
+
+shapely never calls the point map for an empty geometry, so `~affine` is not evaluated (a degenerate
+grid goes unnoticed) and `to_crs` has nothing to do; `Geometry.boundingbox` of an empty geometry is
+`(nan, nan, nan, nan)` and `math.floor(nan)` in `BoundingBox.round` raises `ValueError`. -/
+
+/-- `GeoBoxBase.project(g)` for any coordinate sequence, the empty one included -/
+def GeoBox.projectL (g : GeoBox) (reproj : Reproj) (crs : Option Nat) : List Pt → Res (Option Nat × List Pt)
+  | [] => if crs = none then .ok (g.crs, []) else if g.crs = none then .error .assertion else .ok (none, [])
+  | p :: ps => match g.project reproj crs p ps with
+    | .error e => .error e
+    | .ok (c, q, qs) => .ok (c, q :: qs)
+
+/-- `GeoBox.enclosing(geometry)` for any coordinate sequence, the empty one included -/
+def GeoBox.enclosingGeomL (g : GeoBox) (reproj : Reproj) (crs : Option Nat) : List Pt → Res GeoBox
+  | [] => if crs = none then .error .valueError else if g.crs = none then .error .assertion
+          else .error .valueError                    -- `math.floor(nan)`
+  | p :: ps => g.enclosingRegion reproj (.geom crs p ps)
+
+/-! ### `BoundingBox.to_crs` (geom.py:211-215) and `BoundingBox.boundary` (geom.py:308-322) -/
+
+/-- `BoundingBox.to_crs(crs)` = `self.polygon.to_crs(crs).boundingbox`: `Geometry.to_crs` returns the
+polygon itself for an equal CRS, refuses a polygon without CRS (`ValueError`), otherwise maps the ring
+point by point (pyproj = `reproj`); the result is the shapely bounds of the ring — so an inverted box
+comes back sorted even when nothing is re-projected. -/
+def BBox.toCrs (bb : BBox Rat) (reproj : Reproj) (dst : Nat) : Res (BBox Rat) :=
+  if bb.crs = some dst then .ok (bboxOfPoints bb.ringHead bb.ringTail (some dst))
+  else if bb.crs = none then .error .valueError
+  else .ok (bboxOfPoints (reproj bb.crs (some dst) bb.ringHead) (bb.ringTail.map (reproj bb.crs (some dst))) (some dst))
+
+/-- `numpy.linspace(a, b, n)` (exact; the code rounds to float32 afterwards) -/
+def linspaceQ (a b : Rat) (n : Nat) : List Rat :=
+  if n = 1 then [a]
+  else (List.range n).map (fun (i : Nat) => a + (i : Rat) * ((b - a) / ((n : Rat) - 1)))
+
+/-- `edge_index((n, n), closed=True)` as `(ix, iy)` pairs: top row, right column, bottom row backwards,
+left column upwards, back to `(0, 0)` -/
+def edgeIndexClosed (n : Nat) : List (Nat × Nat) :=
+  (List.range n).map (fun i => (i, 0)) ++
+  (List.range (n - 1)).map (fun j => (n - 1, j + 1)) ++
+  (List.range (n - 1)).reverse.map (fun i => (i, n - 1)) ++
+  (List.range (n - 2)).reverse.map (fun j => (0, j + 1)) ++ [(0, 0)]
+
+/-- `BoundingBox.boundary(pts_per_side)`: `xx[ix], yy[iy]` along the closed edge walk; indexing an
+empty `linspace` (`pts_per_side = 0`) is an `IndexError` -/
+def BBox.boundary (bb : BBox Rat) (n : Nat) : Res (List Pt) :=
+  let xs := linspaceQ bb.left bb.right n
+  let ys := linspaceQ bb.bottom bb.top n
+  (edgeIndexClosed n).mapM (fun ij => match xs[ij.1]?, ys[ij.2]? with
+    | some x, some y => .ok (x, y)
+    | _, _ => .error .indexError)
+
+/-! ### non-linear (GCP) GeoBoxes as operands of the set operations
+
+`GCPGeoBox` has no `.affine` and defines none of `|`, `&`, `overlap_roi`, `snap_to`, `enclosing`: every
+set operation with a non-linear operand on either side is refused with an exception —
+nothing is approximated through `GCPGeoBox.approx` behind the caller's back. -/
+
+inductive Operand where
+  | linear (g : GeoBox)
+  | nonlinear                      -- a GCPGeoBox
+  deriving Repr
+
+/-- outcome of an operation: refused with an exception before any result exists (which exception —
+`AttributeError`, `TypeError`, or the `ValueError` of a CRS test that happens to come first — depends on
+the order of internal steps and is not modelled), or the modelled result -/
+inductive SetOut (α : Type) where
+  | refused
+  | res (r : Res α)
+
+def Operand.or : Operand → Operand → SetOut GeoBox
+  | .linear a, .linear b => .res (a.or b)
+  | _, _ => .refused
+def Operand.and : Operand → Operand → SetOut GeoBox
+  | .linear a, .linear b => .res (a.and b)
+  | _, _ => .refused
+def Operand.overlapRoi : Operand → Operand → Rat → SetOut Roi
+  | .linear a, .linear b, tol => .res (a.overlapRoi b tol)
+  | _, _, _ => .refused
+def Operand.snapTo : Operand → Operand → SetOut GeoBox
+  | .linear a, .linear b => .res (a.snapTo b)
+  | _, _ => .refused
+
 end OdcGeo.C16
